@@ -19,6 +19,8 @@ type Atom struct {
 	Loop  ast.Stmt    // loop: the *ast.ForStmt or *ast.RangeStmt
 	Depth int         // inlining depth at which the atom was produced
 	Callee *ast.FuncDecl // for inlined regions: set on "enter"/"leave" atoms
+	Owner  ast.Stmt      // cond / join: the if statement
+	Lit    *ast.FuncLit  // enterlit / leavelit
 }
 
 type CaseInfo struct {
@@ -44,6 +46,10 @@ type Walker struct {
 	Overflow bool
 	// IsPanic decides whether a call never returns (besides the builtin panic).
 	IsPanic func(call *ast.CallExpr) bool
+	// InlineLits: calls of a parameter that is bound to a function literal at an inlined
+	// call site are inlined too (higher-order helpers such as emitLoop(func(){…})).
+	InlineLits bool
+	frames     []map[types.Object]ast.Expr
 }
 
 func (w *Walker) maxPaths() int {
@@ -206,12 +212,13 @@ func (w *Walker) stmt(s ast.Stmt, in []Path, depth int) []Path {
 		return in
 	case *ast.IfStmt:
 		in = w.stmt(s.Init, in, depth)
-		return w.cond(s.Cond, in, depth, func(t []Path) []Path { return w.stmt(s.Body, t, depth) }, func(f []Path) []Path {
+		out := w.cond(s, s.Cond, in, depth, func(t []Path) []Path { return w.stmt(s.Body, t, depth) }, func(f []Path) []Path {
 			if s.Else != nil {
 				return w.stmt(s.Else, f, depth)
 			}
 			return f
 		})
+		return w.add(out, Atom{Kind: "join", Node: s, Owner: s, Depth: depth})
 	case *ast.SwitchStmt:
 		in = w.stmt(s.Init, in, depth)
 		if s.Tag != nil {
@@ -267,15 +274,15 @@ func (w *Walker) loopBody(b *ast.BlockStmt, depth int) []Path {
 
 // cond forks on a boolean condition; && and || are not split (the whole expression is one
 // test), but calls inside the condition are emitted first.
-func (w *Walker) cond(c ast.Expr, in []Path, depth int, thenF, elseF func([]Path) []Path) []Path {
+func (w *Walker) cond(owner ast.Stmt, c ast.Expr, in []Path, depth int, thenF, elseF func([]Path) []Path) []Path {
 	in = w.exprs(in, depth, c)
 	l, d := live(in)
 	var tp, fp []Path
 	for _, p := range l {
 		t := clonePath(p)
-		t.Atoms = append(t.Atoms, Atom{Kind: "cond", Node: c, Taken: true, Depth: depth})
+		t.Atoms = append(t.Atoms, Atom{Kind: "cond", Node: c, Taken: true, Depth: depth, Owner: owner})
 		f := clonePath(p)
-		f.Atoms = append(f.Atoms, Atom{Kind: "cond", Node: c, Taken: false, Depth: depth})
+		f.Atoms = append(f.Atoms, Atom{Kind: "cond", Node: c, Taken: false, Depth: depth, Owner: owner})
 		tp = append(tp, t)
 		fp = append(fp, f)
 	}
@@ -373,10 +380,45 @@ func (w *Walker) expr(in []Path, depth int, e ast.Expr) []Path {
 			}
 			return in
 		}
+		if w.InlineLits && w.Info != nil {
+			if id, ok := Unparen(e.Fun).(*ast.Ident); ok {
+				if lit := w.boundLit(id); lit != nil {
+					in = w.add(in, Atom{Kind: "enterlit", Node: e, Call: e, Depth: depth, Lit: lit})
+					l, d := live(in)
+					saved := w.frames
+					w.frames = w.frames[:len(w.frames)-1] // the literal's body runs in the caller's frame
+					sub := w.list(lit.Body.List, l, depth+1)
+					w.frames = saved
+					for i := range sub {
+						if sub[i].Term == "return" || sub[i].Term == "fall" {
+							sub[i].Term = ""
+						}
+					}
+					in = append(d, sub...)
+					return w.add(in, Atom{Kind: "leavelit", Node: e, Call: e, Depth: depth, Lit: lit})
+				}
+			}
+		}
 		if w.Inline != nil && depth < w.maxDepth() {
 			if body, callee := w.Inline(e, depth); body != nil {
 				in = w.add(in, Atom{Kind: "enter", Node: e, Call: e, Depth: depth, Callee: callee})
 				l, d := live(in)
+				if w.InlineLits && callee != nil && w.Info != nil {
+					fr := map[types.Object]ast.Expr{}
+					i := 0
+					if callee.Type.Params != nil {
+						for _, f := range callee.Type.Params.List {
+							for _, nm := range f.Names {
+								if i < len(e.Args) {
+									fr[w.Info.Defs[nm]] = e.Args[i]
+								}
+								i++
+							}
+						}
+					}
+					w.frames = append(w.frames, fr)
+					defer func() { w.frames = w.frames[:len(w.frames)-1] }()
+				}
 				sub := w.list(body.List, l, depth+1)
 				for i := range sub {
 					if sub[i].Term == "return" || sub[i].Term == "fall" {
@@ -422,6 +464,20 @@ func (w *Walker) expr(in []Path, depth int, e ast.Expr) []Path {
 		return w.expr(in, depth, e.X)
 	}
 	return in
+}
+
+// boundLit: the function literal a parameter of the innermost inlined callee is bound to.
+func (w *Walker) boundLit(id *ast.Ident) *ast.FuncLit {
+	if len(w.frames) == 0 {
+		return nil
+	}
+	obj := w.Info.Uses[id]
+	if e, ok := w.frames[len(w.frames)-1][obj]; ok {
+		if lit, ok := Unparen(e).(*ast.FuncLit); ok {
+			return lit
+		}
+	}
+	return nil
 }
 
 func (w *Walker) maxDepth() int {
